@@ -316,12 +316,32 @@ pub(crate) fn msg_term(m: &bgp::Message) -> Term {
     }
 }
 
+/// Mirror of `bmp::embedded_codecs` / `bmp::wants_extended_nexthop` (crate-private there): the BGP codec the
+/// BMP / MRT encoders use for `m`: RFC 8654 size limit; RFC 8950 extended next hop for an IPv4 route whose next hop
+/// is IPv6.
+pub(crate) fn embedded_codec_for(m: &bgp::Message) -> bgp::PeerCodec {
+    let enh = matches!(m, bgp::Message::Update(bgp::Update::Reach { family: Family::IPV4, nexthop: Some(nh), .. }) if nh.addr().is_ipv6());
+    let mut c = if enh {
+        let caps = [
+            Capability::MultiProtocol(Family::IPV4),
+            Capability::ExtendedNexthop(vec![(Family::IPV4, Family::AFI_IP6)]),
+            Capability::FourOctetAsNumber(0),
+        ];
+        bgp::PeerCodec::negotiate(&caps, &caps)
+    } else {
+        bgp::PeerCodec::new()
+    };
+    c.extended_length = true;
+    c
+}
+
 /// What a stand-alone BGP encoder configured like the one inside BmpCodec/MrtCodec writes for `msgs`
 /// (None = it panicked).
 pub(crate) fn standalone(msgs: &[&bgp::Message], addpath: bool) -> Option<Vec<u8>> {
     catch_unwind(AssertUnwindSafe(|| {
-        let mut codec = bgp::PeerCodec::new();
         let mut buf = BytesMut::with_capacity(4096);
+        let Some(first) = msgs.first() else { return vec![] };
+        let mut codec = embedded_codec_for(first);
         for m in msgs {
             if let Some(f) = msg_family(m) {
                 codec.set_family(f, bgp::FamilyState { addpath_tx: addpath, ..Default::default() });
@@ -432,9 +452,14 @@ pub(crate) fn encode_real(r: &Real, bmpc: &mut bmp::BmpCodec, mrtc: &mut mrt::Mr
         Real::Mrt(m) => {
             let start = dst.len();
             mrtc.encode(m, dst).unwrap();
-            // SystemTime::now(): not an input
-            for x in &mut dst[start..start + 4] {
-                *x = 0;
+            // SystemTime::now(): not an input (one record per BGP frame: walk them by their length fields)
+            let mut p = start;
+            while p + 12 <= dst.len() {
+                for x in &mut dst[p..p + 4] {
+                    *x = 0;
+                }
+                let l = u32::from_be_bytes([dst[p + 8], dst[p + 9], dst[p + 10], dst[p + 11]]) as usize;
+                p += 12 + l;
             }
         }
         Real::Td(ts, r) => mrt::encode_table_dump(*ts, r, dst).unwrap(),
@@ -456,7 +481,7 @@ pub(crate) struct Built {
 pub(crate) fn emb_tags(e: &Option<Vec<u8>>, tags: &mut Vec<Term>) {
     match e {
         None => tags.push(Term::atom("emb-panic")),
-        Some(b) if b.len() > 4096 => tags.push(Term::atom("multi-frame")),
+        Some(b) if b.len() > 65535 => tags.push(Term::atom("multi-frame")),
         _ => {}
     }
 }
@@ -929,10 +954,12 @@ pub(crate) fn g_update(r: &mut Rng, tier_big: bool) -> Term {
         return Term::tag("eor", vec![Term::nat(fam_num(fam))]);
     }
     // how many NLRI: mostly few; sometimes around / beyond what one 4096-byte frame holds
-    // (one 4096-byte frame holds ~1000 IPv4 /24 or ~580 IPv6 /48 NLRI without add-path)
+    // (the embedded codec uses the 65535-byte limit: one frame holds ~16000 IPv4 /24 or ~9300 IPv6 /48 NLRI
+    //  without add-path; more than that is split into several frames = several records)
     let n = match r.below(if tier_big { 12 } else { 40 }) {
         0 => 0,
         1 => (500 + r.below(700)) as usize,
+        2 if tier_big && r.chance(1, 30) => (16300 + r.below(600)) as usize,
         2 if tier_big => (1500 + r.below(1500)) as usize,
         3 | 4 => 20,
         _ => 1 + r.below(4) as usize,
